@@ -52,6 +52,7 @@ def gen_cells(tier, seed, with_stride=False):
         "ldil": ["off", "M3", "M2"],
         "torus": ["all", "none", "mixed"],
         "G": ["B", "rot", "C2"],
+        "xorder": [0, 1],
     }
     if with_stride:
         axes["stride"] = [1, 2]
@@ -129,15 +130,19 @@ def build(cfg):
     B = {okk: S.var_array(f"b{okk[0]}{okk[1]}", b.shape) for okk, b in layer.bias.items()}
     x = LC.sym_input(S, in_sig, D, shape)
     filters = {kp: np.asarray(v, dtype=np.float64) for kp, v in bank.items()}
+    order = [kp for kp, _ in in_sig]
+    if cfg.get("xorder"):
+        order = order[::-1]
     return dict(D=D, in_sig=in_sig, out_sig=out_sig, bank=bank, filters=filters, shape=shape, torus=torus, rdil=rdil, ldil=ldil, pad=pad,
-                stride=stride, layer=layer, W=W, B=B, x=x, M=M)
+                stride=stride, layer=layer, W=W, B=B, x=x, M=M, order=order)
 
 
 def apply_layer(b, W, B, xblocks, torus, meta=None):
     import equinox as eqx
     import ginjax.geometric as geom
     l2 = LC.layer_with(eqx, b["layer"], W, B)
-    out = l2(geom.MultiImage(dict(xblocks), b["D"], torus))
+    # the input MultiImage is built HERE, in the cell's storage order (dict arguments are key-sorted by JAX)
+    out = l2(geom.MultiImage({kp: xblocks[kp] for kp in b["order"]}, b["D"], torus))
     if meta is not None:
         meta["keys"] = list(out.keys())
         meta["sig"] = out.get_signature() if len(out.keys()) else ()
@@ -155,7 +160,7 @@ def conc_params(cx, b, vals):
 
 
 def cfg_key(cfg):
-    return ":".join(f"{k}={cfg[k]}" for k in ("D", "sig", "bias", "pad", "rdil", "ldil", "torus", "G", "stride"))
+    return ":".join(f"{k}={cfg.get(k)}" for k in ("D", "sig", "bias", "pad", "rdil", "ldil", "torus", "G", "stride", "xorder"))
 
 
 def run_cell(cfg, cx):
